@@ -722,6 +722,7 @@ impl CoseSign1Builder {
 }«
 
 use crate::vprelude::*;
+broadcast use crate::vprelude::lemma_empty_array_view;
 use crate::header::{prot_slot, prot_encodable, prot_ok, prot_res, hdr_ok, hdr_res, hdr_cv, hdr_encodable, sig_ok, sig_res, sig_cv, sig_encodable};
 pub open spec fn sig_ctx_text(c: SignatureContext) -> Seq<char> {
     match c { SignatureContext::CoseSignature => "Signature"@, SignatureContext::CoseSign1 => "Signature1"@, SignatureContext::CounterSignature => "CounterSignature"@ }
